@@ -231,6 +231,17 @@ var strPool = []string{"", "a", "abc", "a\"b", "back\\slash", "line\nfeed", "tab
 var numPool = []string{"0", "1", "-1", "42", "1.0", "-0", "1e3", "1E-2", "0.5", "12345678901234567890", "-12.5e+10"}
 var canonNumPool = []string{"0", "1", "7", "-3", "42", "1000"}
 var keyPool = []string{"a", "b", "c", "x y", "k<", "é", "", "id", "q\"", "value", "Z"}
+
+// the protocol's own member names and string constants: values that LOOK like envelopes
+var protoWords = []string{"data", "rid", "soft", "action", "delete", "result", "error", "resource", "model", "collection", "values", "value",
+	"idx", "timeout", "meta", "code", "message", "query", "events"}
+
+func init() {
+	keyPool = append(keyPool, protoWords...)
+	keyPool = append(keyPool, "data", "data", "rid", "action") // weight
+	strPool = append(strPool, protoWords...)
+}
+
 var wsPool = []string{" ", "\n", "\t", "\r", "  ", " \n "}
 
 func randUTF8(r *Rng, n int) string {
@@ -553,6 +564,8 @@ type desc struct {
 	Hex    []string `json:"hex,omitempty"` // inputs as hex
 	Text   []string `json:"text,omitempty"`
 	J      *J       `json:"json,omitempty"`
+	Via    string   `json:"via,omitempty"`   // how the value is handed to MarshalDataValue
+	Value  string   `json:"value,omitempty"` // compact JSON of J, for the reader
 	Script *script  `json:"script,omitempty"`
 }
 
@@ -636,22 +649,173 @@ func rawOutcome(raw json.RawMessage, err error) string {
 	return ok(a.term())
 }
 
-func caseDV(j J) Case {
+// compact JSON text of j, members in AST order (what Codec/Json.v print gives)
+func printJ(j J) []byte {
+	var sb bytes.Buffer
+	var p func(j J)
+	str := func(s string) {
+		b, _ := json.Marshal(s)
+		sb.Write(b)
+	}
+	p = func(j J) {
+		switch j.K {
+		case 'n':
+			sb.WriteString("null")
+		case 'b':
+			sb.WriteString(Bool(j.B))
+		case '#':
+			sb.WriteString(j.S)
+		case 's':
+			str(j.S)
+		case 'a':
+			sb.WriteByte('[')
+			for i, x := range j.A {
+				if i > 0 {
+					sb.WriteByte(',')
+				}
+				p(x)
+			}
+			sb.WriteByte(']')
+		default:
+			sb.WriteByte('{')
+			for i, m := range j.O {
+				if i > 0 {
+					sb.WriteByte(',')
+				}
+				str(m.Key)
+				sb.WriteByte(':')
+				p(m.V)
+			}
+			sb.WriteByte('}')
+		}
+	}
+	p(j)
+	return sb.Bytes()
+}
+
+// marshalerJ is a user type implementing json.Marshaler whose encoding is j
+type marshalerJ struct{ j J }
+
+func (m marshalerJ) MarshalJSON() ([]byte, error) { return printJ(m.j), nil }
+
+func sortedUnique(j J) bool {
+	switch j.K {
+	case 'a':
+		for _, x := range j.A {
+			if !sortedUnique(x) {
+				return false
+			}
+		}
+	case 'o':
+		for i, m := range j.O {
+			if i > 0 && j.O[i-1].Key >= m.Key {
+				return false
+			}
+			if !sortedUnique(m.V) {
+				return false
+			}
+		}
+	}
+	return true
+}
+
+// vias lists the ways the JSON value j can be handed to MarshalDataValue as a Go value
+func vias(j J) []string {
+	out := []string{"marshaler"}
+	if sortedUnique(j) {
+		out = append(out, "generic")
+	}
+	if j.K == 'o' && len(j.O) == 1 && j.O[0].Key == "data" && sortedUnique(j) {
+		out = append(out, "datavalue")
+	}
+	return out
+}
+
+func goValue(j J, via string) interface{} {
+	switch via {
+	case "marshaler":
+		return marshalerJ{j}
+	case "datavalue":
+		return res.DataValue[interface{}]{Data: toGo(j.O[0].V)}
+	case "datavalue-marshaler":
+		return res.DataValue[marshalerJ]{Data: marshalerJ{j.O[0].V}}
+	}
+	return toGo(j)
+}
+
+// caseDV: MarshalDataValue(v) for a Go value v whose JSON encoding is j, then UnmarshalDataValue of it;
+// the property's oracle is decode(encode v) == j on these outputs.  Also decodes into a res.DataValue.
+func caseDV(j J, via string) (Case, *ImplViolation) {
 	var gm []byte
 	var err error
 	var raw json.RawMessage
 	var uerr error
+	var iv *ImplViolation
+	d := desc{Kind: "dv", J: &j, Via: via, Value: string(printJ(j))}
 	pan := safe(func() {
-		gm, err = resprot.MarshalDataValue(toGo(j))
+		gm, err = resprot.MarshalDataValue(goValue(j, via))
 		uerr = resprot.UnmarshalDataValue(gm, &raw)
+		// a typed target: decoding into res.DataValue[RawMessage] must give the member "data" of j
+		if j.K == 'o' && len(j.O) == 1 && j.O[0].Key == "data" {
+			var dv res.DataValue[json.RawMessage]
+			e := resprot.UnmarshalDataValue(gm, &dv)
+			want := printJ(j.O[0].V)
+			if e != nil || !bytes.Equal(dv.Data, want) {
+				iv = &ImplViolation{What: fmt.Sprintf("UnmarshalDataValue(MarshalDataValue(v), &res.DataValue) gives %q (err %v), v.data is %s", dv.Data, e, want), Desc: d}
+			}
+		}
 	})
-	c := Case{Desc: desc{Kind: "dv", J: &j}}
+	c := Case{Desc: d}
 	if pan || err != nil {
 		c.Tags = append(c.Tags, "panic")
 	}
 	c.Term = fmt.Sprintf("CDV %s %s %s %s", j.term(), B(string(gm)), goView(gm).term(), rawOutcome(raw, uerr))
 	c.Nontrivial = j.K == 'a' || j.K == 'o'
-	return c
+	c.Key = via + string(printJ(j))
+	return c, iv
+}
+
+// envelopeValues: JSON values built from the protocol's own keywords - as the only member, among other
+// members, nested three and more levels deep, inside arrays, and as string values.
+func envelopeValues() []J {
+	var out []J
+	sorted := func(ms ...M) J {
+		o := jobj(ms...)
+		sort.Slice(o.O, func(a, b int) bool { return o.O[a].Key < o.O[b].Key })
+		return o
+	}
+	for _, k := range protoWords {
+		out = append(out,
+			jobj(mem(k, jbool(true))),
+			jobj(mem(k, jstr(k))),
+			jobj(mem(k, jnull())),
+			jobj(mem(k, jarr(jnum("1"), jnum("2")))),
+			jobj(mem(k, jobj(mem(k, jbool(true))))),
+			jobj(mem(k, jobj(mem(k, jobj(mem(k, jarr(jobj(mem(k, jnum("1")))))))))),
+			sorted(mem(k, jobj(mem("data", jstr("x")))), mem("a", jnum("1"))),
+			sorted(mem(k, jstr("delete")), mem("data", jarr())),
+			jarr(jobj(mem(k, jstr("delete"))), jobj(mem("data", jobj(mem(k, jnum("7")))))),
+			jobj(mem("data", jobj(mem(k, jobj(mem("data", jstr(k))))))),
+			jstr(k))
+	}
+	out = append(out,
+		jobj(mem("data", jobj(mem("data", jobj(mem("data", jobj(mem("data", jnull())))))))),
+		sorted(mem("rid", jstr("a.b")), mem("soft", jbool(true))),
+		sorted(mem("rid", jstr("a.b")), mem("data", jnum("1"))),
+		jobj(mem("action", jstr("delete"))),
+		sorted(mem("action", jstr("delete")), mem("data", jobj(mem("action", jstr("delete"))))),
+		sorted(mem("result", jobj(mem("data", jnum("1")))), mem("error", jobj(mem("code", jstr("c")), mem("message", jstr("m"))))),
+		sorted(mem("resource", jobj(mem("rid", jstr("a.b")))), mem("meta", jobj(mem("status", jnum("404"))))),
+		sorted(mem("model", jobj(mem("data", jobj(mem("data", jnum("1")))))), mem("query", jstr("q=1"))),
+		sorted(mem("collection", jarr(jobj(mem("data", jarr())), jobj(mem("rid", jstr("a.b"))))), mem("query", jstr("q"))),
+		sorted(mem("events", jarr(jobj(mem("data", jobj(mem("values", jobj(mem("data", jobj(mem("action", jstr("delete")))))))), mem("event", jstr("change"))))), mem("timeout", jnum("1000"))),
+		sorted(mem("idx", jnum("0")), mem("value", jobj(mem("data", jobj(mem("data", jarr(jnum("1"))))))), mem("values", jobj())),
+		// not sorted / duplicate members: only through a json.Marshaler
+		jobj(mem("data", jnum("1")), mem("data", jnum("2"))),
+		jobj(mem("soft", jbool(true)), mem("rid", jstr("a.b"))),
+		jobj(mem("Data", jarr())), jobj(mem("DATA", jobj(mem("data", jnum("1"))))),
+	)
+	return out
 }
 
 func caseDVU(text string) Case {
@@ -1385,7 +1549,15 @@ func main() {
 		case "refu":
 			add("replay", caseRefU(d.input(0)))
 		case "dv":
-			add("replay", caseDV(*d.J))
+			via := d.Via
+			if via == "" {
+				via = "generic"
+			}
+			c, iv := caseDV(*d.J, via)
+			if iv != nil {
+				impl = append(impl, *iv)
+			}
+			add("replay", c)
 		case "dvu":
 			add("replay", caseDVU(d.input(0)))
 		case "val":
@@ -1483,8 +1655,30 @@ func main() {
 			add("ref-unmarshal", caseRefU(t))
 		}
 		// (d) data values
+		addDV := func(kind string, j J, via string) {
+			c, iv := caseDV(j, via)
+			if iv != nil {
+				impl = append(impl, *iv)
+			}
+			add(kind, c)
+		}
+		for _, j := range envelopeValues() {
+			for _, via := range vias(j) {
+				addDV("datavalue-envelope", j, via)
+			}
+			if j.K == 'o' && len(j.O) == 1 && j.O[0].Key == "data" {
+				addDV("datavalue-envelope", j, "datavalue-marshaler")
+			}
+		}
 		for i := scale(200, 4000); i > 0; i-- {
-			add("datavalue", caseDV(genJ(r, 3, false)))
+			j := genJ(r, 3, false)
+			if r.Chance(25) { // wrap in the protocol's own envelopes
+				for n := 1 + r.Intn(3); n > 0; n-- {
+					j = jobj(mem(r.Pick([]string{"data", "data", "rid", "action", "result", "error", "value"}), j))
+				}
+			}
+			vs := vias(j)
+			addDV("datavalue", j, vs[r.Intn(len(vs))])
 		}
 		for i := scale(200, 4000); i > 0; i-- {
 			t := renderOuter(r, genValueAST(r), 30)
@@ -1492,6 +1686,13 @@ func main() {
 				t = malform(r, t)
 			}
 			add("datavalue-unmarshal", caseDVU(t))
+			// the other direction: what was decoded from a text is encoded and decoded again
+			var raw json.RawMessage
+			if resprot.UnmarshalDataValue([]byte(t), &raw) == nil {
+				if a, okk := parseAST(raw); okk && r.Chance(50) {
+					addDV("datavalue-reencode", a, "marshaler")
+				}
+			}
 		}
 		// (e) store values: triples of texts
 		for i := scale(500, 10000); i > 0; i-- {
@@ -1555,6 +1756,31 @@ func main() {
 				impl = append(impl, *iv)
 			} else {
 				add("response-fixed", c)
+			}
+		}
+		// envelope-shaped values as result, model, collection member and error data
+		for i, v := range envelopeValues() {
+			if !sortedUnique(v) {
+				continue
+			}
+			v := v
+			scs := []*script{{Req: []string{"call", "auth"}[i%2], Kind: "ok", Result: &v}}
+			if thorough || i%3 == 0 {
+				model := v
+				if model.K != 'o' {
+					model = jobj(mem("data", v))
+				}
+				coll := jarr(v, jobj(mem("data", v)))
+				scs = append(scs, &script{Req: "get", Kind: "model", Result: &model, Query: []string{"", "q=1"}[i%2]},
+					&script{Req: "get", Kind: "collection", Result: &coll},
+					&script{Req: []string{"call", "get", "access", "auth", "new"}[i%5], Kind: []string{"error", "panicerror"}[i%2], Code: "system.notFound", Msg: "Not found", Data: &v})
+			}
+			for _, sc := range scs {
+				if c, iv := caseResp(sv, sc); iv != nil {
+					impl = append(impl, *iv)
+				} else {
+					add("response-envelope", c)
+				}
 			}
 		}
 		for _, sc := range errorMatrix(thorough) {
